@@ -177,7 +177,10 @@ def c10 : List String → String
       let l0 := (ns.getD 0 ⟨0, .final, 0, .abs, false⟩).l
       let tr :=
         if entry == "header" then Rd2.runHeader w { node := 0, lst := l0, auth := some l0 }
-        else Rd2.runAuth w (cr == "1") 4 (access == "basic") { node := 0, lst := l0, auth := none }
+        else
+          -- cr: "0" nobody can fill, "1" the helper fills for every place, "u" only the LFS URL's userinfo (place l0)
+          let fill : Nat → Bool := if cr == "1" then fun _ => true else if cr == "u" then fun l => l == l0 else fun _ => false
+          Rd2.runAuth w fill 4 (access == "basic") { node := 0, lst := l0, auth := none, implicit := cr == "u" && entry == "api" }   -- only the API request is built from the LFS URL (with its userinfo)
       if tr.isEmpty then "-" else String.intercalate " " (tr.map showReq)
     | _, _ => "bad-op"
   | _ => "bad-op"
